@@ -233,6 +233,15 @@ VecPred(W, F, Q) == [op |-> "predict", n |-> Len(W), W |-> W, F |-> F, Q |-> Q, 
 VecCorr(W, H, Rs) == LET c == Corr(W, H, Rs) IN
     [op |-> "correct", n |-> Len(W), m |-> Len(H), W |-> W, H |-> H, Rs |-> Rs, S |-> c.S, K |-> c.K, Pp |-> c.Pp]
 
+(* SCALE DISPARITY ("all invertible lower-triangular W ... and invertible R factors"): the same vectors with W := sw W and
+   Rs := sr Rs for a measurement far more accurate than the prior (sr / sw down to 1e-8).  The identities of CorrLaw are the
+   expectation (K = P H^T S^-1, Ss Ss^T = S, W+ W+^T = (I - K H) P); their numbers do not fit 32 bits, so the harness evaluates
+   them in exact rational arithmetic (python Fractions) and compares RELATIVE to the size of each result -- (I - K H) P is then
+   1e-12 .. 1e-16 of P, and an implementation that squares the condition number (Gram matrix + Cholesky instead of the QR of
+   the pre-array) loses exactly these digits.  <<a, b, c, d>> means sw = a/b, sr = c/d. *)
+ScalePairs == { <<10, 1, 1, 1000000>>, <<10000, 1, 1, 10000>>, <<1, 1, 1, 10000000>>, <<1, 1000, 1, 1000000000>> }
+VecCorrScaled(W, H, Rs, sp) == [op |-> "correct_scaled", n |-> Len(W), m |-> Len(H), W |-> W, H |-> H, Rs |-> Rs, sp |-> sp]
+
 Dims == {1, 2, 3}
 Init ==
   \/ \E n \in Dims : \E dg \in SymDiag(n) : tv = [op |-> "seed_sym", n |-> n, dg |-> dg]
@@ -251,7 +260,8 @@ Next ==
   \/ /\ tv.op = "seed_pred"
      /\ \E lo \in LOs(tv.n) : tv' = VecPred(MkW(tv.n, tv.dg, lo), tv.F, tv.Q)
   \/ /\ tv.op = "seed_corr"
-     /\ \E lo \in LOs(tv.n) : tv' = VecCorr(MkW(tv.n, tv.dg, lo), tv.H, tv.Rs)
+     /\ \E lo \in LOs(tv.n) : \/ tv' = VecCorr(MkW(tv.n, tv.dg, lo), tv.H, tv.Rs)
+                               \/ \E sp \in ScalePairs : tv' = VecCorrScaled(MkW(tv.n, tv.dg, lo), tv.H, tv.Rs, sp)
   \/ /\ tv.op = "seed_cubic"
      /\ \E t0 \in T0s, h \in Hst, y0 \in Y0s :
           \/ tv' = [op |-> "rk4_cubic", c |-> tv.c, t0 |-> t0, h |-> h, y0 |-> y0, exp |-> CubicFlow(tv.c, t0, h, y0)]
